@@ -1,13 +1,13 @@
-\* random walks: 6 base coins (coinbase, both scopes, both accounts), <= 4 created transactions (chains of
+\* random walks: 8 base coins (coinbase, four key scopes = four address types, two accounts), <= 4 created transactions (chains of
 \* unconfirmed change spends), <= 4 blocks, locks and leases on every coin
 CONSTANTS
-  NBase = 6
+  NBase = 8
   MaxSends = 4
   MaxTip = 4
   Mat = 2
   Answers = {"accepted", "inmempool", "rejected", "notifyfail1", "notifyfail2"}
   Acts = {"Receive", "Mine", "Lock", "Lease", "Send", "SendExplicit", "FundOwn", "DryRun", "Restart", "RestartRej"}
-  LockCoins = {1, 2, 3, 5, 7, 8}
+  LockCoins = {1, 2, 3, 5, 7, 9, 10}
   MaxHist = 28
   FullHist = TRUE
 INIT Init
